@@ -1086,9 +1086,10 @@ impl Scenario for ArtefactMedium {
                         ctx.probe("fault_free_decode");
                     }
                     let label = format!("decode:{}", to);
-                    // a death is attributed to decoder and input size class: the known native-stack overflows need > 20 000 nested
-                    // conditionals (> 32 KiB of input), so the same abort on a small input is a different, unlisted defect
-                    ctx.crumb(&format!("{}{}", label, if input.len() >= 32768 { " len>=32k" } else { "" }));
+                    // a death is attributed to decoder and input size class: the known native-stack overflows need about 29 000 nested
+                    // conditionals on an 8 MiB stack, and one conditional costs at least one byte of input, so the same abort on an
+                    // input below 16 KiB is a different, unlisted defect
+                    ctx.crumb(&format!("{}{}", label, if input.len() >= 16384 { " len>=16k" } else { "" }));
                     if is_base58_kind(&to) && input.len() > BASE58_CAP {
                         ctx.probe("skipped_base58_quadratic");
                         ctx.skip();
